@@ -41,6 +41,32 @@ ALTERING = ("::filter", "::and_then", "::or", "::or_else", "::xor", "::min", "::
             "::trim_start", "::trim_matches", "::trim_end_matches", "::trim_start_matches", "::replace", "::to_lowercase", "::to_uppercase", "::truncate", "::parse",
             "::saturating_sub", "::saturating_add", "::clamp", "::unwrap_or_default", "::zip", "::rev", "::split", "::join")
 
+def template_value_rule(F, rep, rule, scope=None):
+    """the text the template function sanitize(..) hands to the sanitiser is its `value` argument as given (shared with C15)"""
+    if scope is None:
+        tf = F.fn("crate::cli::utils::template::functions::sanitize_function")
+        if not rep.anchor(rule, "template function sanitize()", tf): return
+        ti = mir.inlined(F, tf, depth=2, keep=("sanitize", "str", "semver_str", "pep440_local_str", "uint", "key", "get_string_value"))
+        scope = [ti] + mir.closures_in(F, ti)
+    # (c) the text that is sanitised is the `value` argument itself: cutting it first (take / truncate / a slice) is not the contract's
+    #     cut, which counts characters of the RESULT after separator runs have been collapsed
+    CUTS = ("::take", "::truncate", "::skip", "::split_at", "::drain", "::split_off", "::pop", "::trim", "::trim_start", "::trim_end", "::to_lowercase", "::to_uppercase", "::replace", "::char_indices", "::nth")
+    nval = 0
+    for h in scope:
+        for bi, t in h.calls():
+            if not (mir.callee(t) or "").endswith("sanitize::Sanitizer::sanitize") or len(t[2]) < 2: continue
+            nval += 1
+            site = "%s bb%d line %s" % (h.where(), bi, h.blocks[bi]["line"])
+            cuts = set(); sliced = False
+            for k, d in mir.deep_origins(h, t[2][1], stop=()):
+                if k == "call" and d.isdigit() and h.blocks[int(d)]["t"][0] == "call":
+                    c2 = mir.callee(h.blocks[int(d)]["t"]) or ""
+                    if any(c2.endswith(x) for x in CUTS): cuts.add(c2.rsplit("::", 1)[-1])
+                    if "Index<" in (h.blocks[int(d)]["t"][1].get("full") or "") and "Range" in (h.blocks[int(d)]["t"][1].get("full") or ""): sliced = True
+            if cuts or sliced: rep.bad(rule, "template-value-precut", "sanitize(..) hands the sanitiser a text that went through %s first: `a//bcd` with max_length 4 gives a-b instead of a-bc (the cut belongs to the sanitiser, after separator runs are collapsed)" % (sorted(cuts) + (["a slice"] if sliced else [])), site)
+            else: rep.ok(rule, "sanitize(..) sanitises its value argument as given", sample=site, nontrivial_key="val%s%d" % (h.path[-12:], bi))
+    rep.floor(rule, "Sanitizer::sanitize calls in the template function", nval, 1)
+
 def wrapper_rules(F, rep):
     """R16.6: the two ways the contract's settings reach the sanitiser do not alter them: the constructor Sanitizer::str stores its
     parameters as given, and the template function sanitize(..) forwards its arguments to that constructor and returns the
@@ -121,6 +147,7 @@ def wrapper_rules(F, rep):
                 elif not keys: rep.bad(rule, "template-arg-dropped:" + nm, "sanitize(..) builds its sanitiser without the %s argument it was given (a constant is passed instead): the setting is not applied inside the sanitiser, so whatever is done about it afterwards is not followed by the clean-up phases" % nm, site)
                 else: rep.bad(rule, "template-arg-wiring:" + nm, "sanitize(..) fills %s from the template argument(s) %s" % (nm, sorted(keys)), site)
         rep.floor(rule, "settings forwarded by the template function", nfw, 4)
+        template_value_rule(F, rep, rule, scope)
         # (b) what is returned is Value::String(<result of Sanitizer::sanitize>)
         nret = 0
         for h in scope:
